@@ -63,6 +63,8 @@ def reads_state(e: ast.AST, value_calls: Iterable[str] = ()) -> bool:
                 continue
             if isinstance(f, ast.Name) and f.id in ("Decimal", "Fraction", "int", "float", "bool", "abs") and all(isinstance(a, (ast.Constant, ast.Name, ast.Attribute)) for a in n.args):
                 continue
+            if isinstance(f, ast.Name) and f.id in ("isinstance", "type", "id") and n.args and isinstance(n.args[0], ast.Name):
+                continue  # what class an object is (and which object it is) does not change with the object's state
             if (isinstance(f, ast.Name) and f.id in value_calls) or (isinstance(f, ast.Attribute) and ast.unparse(f) in value_calls):
                 continue  # constructor of an immutable value from its arguments
             return True
@@ -198,6 +200,15 @@ class _Fold(ast.NodeTransformer):
                 return l
         return n
 
+    def visit_FormattedValue(self, n: ast.FormattedValue):
+        n = self.generic_visit(n)
+        if n.conversion == 114 and "repr" not in self.bound and n.format_spec is None:
+            # f"{x!r}" is f"{repr(x)}"
+            return ast.FormattedValue(value=ast.Call(func=ast.Name(id="repr", ctx=ast.Load()), args=[n.value], keywords=[]), conversion=-1, format_spec=None)
+        if n.conversion == 115 and "str" not in self.bound and n.format_spec is None:
+            return ast.FormattedValue(value=n.value, conversion=-1, format_spec=None)  # f"{x!s}" formats str(x), as f"{x}" does for every str()-able object whose __format__ is the default
+        return n
+
     def visit_Attribute(self, n: ast.Attribute):
         v = n.value
         if isinstance(v, ast.Call) and isinstance(v.func, ast.Name) and v.func.id in self.records and isinstance(n.ctx, ast.Load):
@@ -229,6 +240,20 @@ class _Fold(ast.NodeTransformer):
             if n.args[0].func.id == "filter":
                 return ast.ListComp(elt=ast.Name(id=v, ctx=ast.Load()), generators=[ast.comprehension(target=tgt, iter=it, ifs=[lam.body], is_async=0)])
             return ast.ListComp(elt=lam.body, generators=[ast.comprehension(target=tgt, iter=it, ifs=[], is_async=0)])
+        if isinstance(n.func, ast.Name) and n.func.id == "getattr" and "getattr" not in self.bound and len(n.args) == 2 and not n.keywords and isinstance(n.args[1], ast.Constant) \
+                and isinstance(n.args[1].value, str) and n.args[1].value.isidentifier():
+            return ast.Attribute(value=n.args[0], attr=n.args[1].value, ctx=ast.Load())
+        if isinstance(n.func, ast.Name) and n.func.id in ("filter", "map") and n.func.id not in self.bound and len(n.args) == 2 and not n.keywords and isinstance(n.args[0], ast.Lambda) \
+                and len(n.args[0].args.args) == 1 and not n.args[0].args.defaults:
+            # filter(lambda v: P, it) is the lazy (v for v in it if P) ; map(lambda v: E, it) is (E for v in it)
+            lam, it = n.args
+            v = lam.args.args[0].arg
+            tgt = ast.Name(id=v, ctx=ast.Store())
+            if n.func.id == "filter":
+                return ast.GeneratorExp(elt=ast.Name(id=v, ctx=ast.Load()), generators=[ast.comprehension(target=tgt, iter=it, ifs=[lam.body], is_async=0)])
+            return ast.GeneratorExp(elt=lam.body, generators=[ast.comprehension(target=tgt, iter=it, ifs=[], is_async=0)])
+        if isinstance(n.func, ast.Name) and n.func.id == "list" and "list" not in self.bound and len(n.args) == 1 and not n.keywords and isinstance(n.args[0], ast.GeneratorExp):
+            return ast.ListComp(elt=n.args[0].elt, generators=n.args[0].generators)
         if isinstance(n.func, ast.Name) and n.func.id in self.records and n.func.id not in self.bound and not any(isinstance(a, ast.Starred) for a in n.args) \
                 and not any(k.arg is None for k in n.keywords):
             # record constructors: positional arguments named by field order, keywords in field order
@@ -628,6 +653,8 @@ def _simplify(e: ast.AST) -> ast.AST:
     """A few constant folds that matter for guards: `<Constructor>(...) is None`, `None is None`, not <const>."""
     if isinstance(e, ast.Compare) and len(e.ops) == 1 and isinstance(e.ops[0], (ast.Is, ast.IsNot)):
         l, r = e.left, e.comparators[0]
+        if isinstance(l, ast.Name) and isinstance(r, ast.Name) and l.id == r.id:
+            return ast.Constant(value=isinstance(e.ops[0], ast.Is))  # the same binding on this path
         if isinstance(r, ast.Constant) and r.value is None:
             pos = isinstance(e.ops[0], ast.Is)
             if isinstance(l, ast.Constant):
@@ -1023,7 +1050,12 @@ class Summariser:
                 return env, effects
             if isinstance(v, (ast.Yield, ast.YieldFrom)):
                 return env, effects + [Eff("yield" if isinstance(v, ast.Yield) else "yieldfrom", None, self.sub(v.value, env), line, lstack, st)]
-            return env, effects + [Eff("expr", None, self.sub(v, env), line, lstack, st)]
+            sv = self.sub(v, env)
+            if isinstance(sv, ast.Call) and isinstance(sv.func, ast.Name) and sv.func.id == "setattr" and "setattr" not in self.bound and len(sv.args) == 3 and not sv.keywords \
+                    and isinstance(sv.args[1], ast.Constant) and isinstance(sv.args[1].value, str) and sv.args[1].value.isidentifier():
+                # setattr(x, 'name', v) with a constant name is the store x.name = v
+                return env, effects + [Eff("store", ast.Attribute(value=sv.args[0], attr=sv.args[1].value, ctx=ast.Load()), sv.args[2], line, lstack, st)]
+            return env, effects + [Eff("expr", None, sv, line, lstack, st)]
         if isinstance(st, ast.Delete):
             return env, effects + [Eff("delete", self.sub(_as_load(t), env), None, line, lstack, st) for t in st.targets]
         if isinstance(st, ast.Assert):
@@ -1204,6 +1236,7 @@ class _Reducer:
                 d[n.id] = d.get(n.id, 0) + 1
             if isinstance(n, ast.Assign) and len(n.targets) == 1 and isinstance(n.targets[0], ast.Name):
                 vals[n.targets[0].id] = n.value
+        self.once = {nm for nm in vals if stores.get(nm) == 1 and loads.get(nm) == 1}  # locals written once and read once
         self.defs = {}
         for nm, v in vals.items():
             if stores.get(nm) == 1 and loads.get(nm) == 1 and (isinstance(v, ast.GeneratorExp) or (isinstance(v, ast.Call) and isinstance(v.func, ast.Name) and v.func.id in ("map", "filter"))):
@@ -1225,8 +1258,23 @@ class _Reducer:
     # -- blocks --------------------------------------------------------------
     def block(self, stmts: List[ast.stmt]) -> List[ast.stmt]:
         out: List[ast.stmt] = []
-        for st in stmts:
+        stmts = list(stmts)
+        i = 0
+        while i < len(stmts):
+            st = stmts[i]
+            nxt = stmts[i + 1] if i + 1 < len(stmts) else None
+            if (isinstance(st, ast.Assign) and len(st.targets) == 1 and isinstance(st.targets[0], ast.Name) and st.targets[0].id in self.once and isinstance(nxt, ast.If)
+                    and ((isinstance(nxt.test, ast.Name) and nxt.test.id == st.targets[0].id)
+                         or (isinstance(nxt.test, ast.UnaryOp) and isinstance(nxt.test.op, ast.Not) and isinstance(nxt.test.operand, ast.Name) and nxt.test.operand.id == st.targets[0].id))):
+                # c = <expr> ; if c: ...   (c is read nowhere else)  ->  if <expr>: ...
+                nxt = copy.copy(nxt)
+                nxt.test = st.value if isinstance(nxt.test, ast.Name) else ast.UnaryOp(op=ast.Not(), operand=st.value)
+                ast.copy_location(nxt.test, st.value)
+                stmts[i + 1] = nxt
+                i += 1
+                continue
             out.extend(self.stmt(st))
+            i += 1
         return out
 
     def stmt(self, st: ast.stmt) -> List[ast.stmt]:
@@ -1242,8 +1290,9 @@ class _Reducer:
             st.orelse = self.block(st.orelse)
             return self.block(pre) + [st] if pre else [st]
         if isinstance(st, (ast.For, ast.AsyncFor)):
-            g = _as_genexp(st.iter) if not isinstance(st.iter, (ast.Name, ast.Attribute)) else None
-            if g is not None and not st.orelse and isinstance(st.iter, (ast.GeneratorExp, ast.Call)) and not (isinstance(st.iter, ast.Call) and st.iter.func.id in ("list", "tuple")):
+            lazy_name = isinstance(st.iter, ast.Name) and st.iter.id in _DEFS[0]
+            g = _as_genexp(st.iter) if (not isinstance(st.iter, (ast.Name, ast.Attribute)) or lazy_name) else None
+            if g is not None and not st.orelse and (lazy_name or isinstance(st.iter, (ast.GeneratorExp, ast.Call))) and not (isinstance(st.iter, ast.Call) and st.iter.func.id in ("list", "tuple")):
                 # for t in (E for v in IT if C): body   ->   for v in IT: if C: t = E; body
                 inner = [ast.copy_location(ast.Assign(targets=[st.target], value=g.elt), st)] + list(st.body)
                 if isinstance(g.elt, ast.Name) and isinstance(st.target, ast.Name) and g.elt.id == st.target.id:
